@@ -98,6 +98,7 @@ func Load(dir string) (*Prog, error) {
 	p.buildAliases()
 	p.buildParamAliases()
 	p.BuildBindings()
+	Current = p
 	return p, nil
 }
 
@@ -122,6 +123,9 @@ func InModule(fn *ssa.Function) bool {
 
 // ModuleFuncs returns every source function (including methods and closures)
 // of the module, sorted by position.
+// Current is the program loaded last (one per process).
+var Current *Prog
+
 func (p *Prog) ModuleFuncs() []*ssa.Function {
 	var out []*ssa.Function
 	for fn := range ssautil.AllFunctions(p.SSA) {
